@@ -47,10 +47,10 @@ theorem foldl_add_map {γ : Type} (g : γ → ℝ) (l : List γ) (a : ℝ) :
 section Sets
 variable {β : Type} [LinearOrder β]
 
-theorem pushNew_eq_union (u v : List β) : pushNew deq u v = vectorUnion deq u v := rfl
+theorem pushNew_eq_union (u v : List β) : pushNew deq u v = vectorUnionOrig deq u v := rfl
 
 theorem mem_pushNew (u v : List β) (x : β) : x ∈ pushNew deq u v ↔ x ∈ u ∨ x ∈ v := by
-  rw [pushNew_eq_union]; exact mem_vectorUnion u v x
+  rw [pushNew_eq_union]; exact mem_vectorUnionOrig u v x
 
 theorem inAll_iff (vs : List (List β)) (x : β) : inAll deq vs x = true ↔ ∀ v ∈ vs, x ∈ v := by
   induction vs with
@@ -99,7 +99,7 @@ theorem firstOcc_append (a b : List β) :
 
 theorem pushNew_eq (u v : List β) :
     pushNew deq u v = u ++ (Spec.firstOcc deq v).filter (fun x => decide (x ∉ u)) := by
-  unfold pushNew
+  unfold pushNew vectorUnionOrig
   induction v generalizing u with
   | nil => simp [Spec.firstOcc]
   | cons y ys ih =>
@@ -148,6 +148,12 @@ theorem vectorUnionList_eq (vs : List (List β)) :
   unfold vectorUnionList
   rw [foldl_pushNew_eq]
   simp
+
+/-- the repaired two-vector union is the union of the list of the two -/
+theorem vectorUnion_eq_list (a b : List β) : vectorUnion deq a b = vectorUnionList deq [a, b] := rfl
+
+theorem vectorUnion_eq (a b : List β) : vectorUnion deq a b = Spec.firstOcc deq (a ++ b) := by
+  rw [vectorUnion_eq_list, vectorUnionList_eq]; simp
 
 theorem vectorIntersectionList_cons (v : List β) (rest : List (List β)) :
     vectorIntersectionList deq (v :: rest) = v.filter (fun x => decide (∀ u ∈ rest, x ∈ u)) := by
